@@ -18,6 +18,8 @@ import Golib.Proof.C18Permute
 import Golib.Proof.C18Compose
 import Golib.Proof.C18Driver
 import Golib.Proof.C18GraphDriver
+import Golib.Proof.C18GraphR
+import Golib.Proof.C18Int64
 
 namespace Golib.C18
 
@@ -217,6 +219,59 @@ example : best List.reverse (solversV none 4 true (fun x : Int => x) (fun _ l =>
     bestO id (solversV none 9 true (fun x : Int => x) (fun _ l => l.reverse) (fun _ l => l) [2, 3, 3]) 9
       = some [2, 3, 3] := by decide
 
+/-! ### Go `int` (64 bits) versus the unbounded integers of the models
+
+All theorems above compute in `Int`.  They are statements about the Go code under the guard
+`absSum f items < 2^63` (sum of the absolute values of the weights resp. values; for the
+property's positive values simply "the sum of all values is `< 2^63`"), and `0 ≤ limit < 2^63`
+(a Go `int`).  Beyond the guard Go wraps around and the property does not hold of the code. -/
+
+/-- The guard, explicitly: (1) the total of every sub-selection lies within `±absSum` and hence
+fits a Go `int`; (2) the only addition in `Knapsack` (`dp[i-w].score + value`, for a table cell
+satisfying the invariant of the correctness proof) and (3) the only addition in `FindDpSolvers`
+(`currentValue + value`, for a sound map entry) produce the total of a sub-selection — so under
+the guard no sum formed by the code overflows, and table scores, map keys and the optimum fit. -/
+theorem c18_int64_guard {α : Type} (f : α → Int) (items : List α)
+    (hg : absSum f items < (2 : Int) ^ 63) :
+    (∀ t : List α, t.Sublist items → fitsInt64 (isum f t)) ∧
+    (∀ (wf : α → Nat) (pre : List α) (i : Nat) (src : Cell α) (x : α), CellGood wf f pre i src →
+      src.1 + f x = isum f (src.2 ++ [x]) ∧ (src.2 ++ [x]).Sublist (pre ++ [x])) ∧
+    (∀ (pre : List α) (e : Int × List α) (x : α), EntrySound f pre e →
+      e.1 + f x = isum f (e.2 ++ [x]) ∧ (e.2 ++ [x]).Sublist (pre ++ [x])) :=
+  ⟨totals_fit_int64 f items hg, fun wf pre i src x g => knap_addition_is_total wf f pre i src x g,
+   fun pre e x g => solv_addition_is_total f pre e x g⟩
+
+/-- `Knapsack` under the guard: the returned selection is valid and optimal (as above) and its
+value, like the value of every competing selection, is a Go `int`. -/
+theorem c18_knapsack_int64 {α : Type} (br : Option (List α → List α → Bool)) (wf vf : α → Int)
+    (W : Int) (items : List α) (hW : 0 ≤ W) (hw : ∀ x ∈ items, 0 ≤ wf x)
+    (hg : absSum vf items < (2 : Int) ^ 63) :
+    ∃ sel, knapsackGo br wf vf W items = some sel ∧ sel.Sublist items ∧ isum wf sel ≤ W ∧
+      fitsInt64 (isum vf sel) ∧
+      ∀ t : List α, t.Sublist items → isum wf t ≤ W → isum vf t ≤ isum vf sel ∧ fitsInt64 (isum vf t) := by
+  obtain ⟨sel, h1, h2, h3, h4⟩ := knapsackGo_spec br wf vf W items hW hw
+  exact ⟨sel, h1, h2, h3, totals_fit_int64 vf items hg sel h2,
+    fun t ht hwt => ⟨h4 t ht hwt, totals_fit_int64 vf items hg t ht⟩⟩
+
+/-- `FindDpSolvers` under the guard (positive values whose sum is `< 2^63`): every key of the
+returned map is a Go `int`. -/
+theorem c18_solvers_int64 {α : Type} (br : Option (List α → List α → Bool)) (maxV : Int)
+    (allowOver : Bool) (vf : α → Int) (ord1 ord2 : Nat → List Int → List Int)
+    (hord1 : ∀ i l, (ord1 i l).Perm l) (hord2 : ∀ i l, (ord2 i l).Perm l)
+    (items : List α) (hpos : ∀ x ∈ items, 0 < vf x) (hg : absSum vf items < (2 : Int) ^ 63) :
+    ∀ e ∈ solversV br maxV allowOver vf ord1 ord2 items, fitsInt64 e.1 := by
+  obtain ⟨_, b, _, _, _⟩ := solversV_spec br maxV allowOver vf ord1 ord2 hord1 hord2 items
+    (fun x hx => Int.le_of_lt (hpos x hx)) (fun _ => hpos)
+  intro e he
+  obtain ⟨hs, hsum⟩ := b e he
+  rw [← hsum]
+  exact totals_fit_int64 vf items hg e.2 hs
+
+-- at the guard: two values 2^62 and 2^62 - 1 (sum 2^63 - 1) still fit; their total is a Go int
+example : absSum (fun x : Int => x) [4611686018427387904, 4611686018427387903] < (2 : Int) ^ 63 ∧
+    knapsackGo none (fun _ => 1) (fun x : Int => x) 2 [4611686018427387904, 4611686018427387903]
+      = some [4611686018427387904, 4611686018427387903] := by decide
+
 /-! ### GetMaximalCliques: the shared `P`/`X` array -/
 
 /-- The top-level call `BronKerbosch(R, P, P[:0])` on the shared array returns what the
@@ -229,6 +284,51 @@ theorem c18_top_alias_safe {V : Type} (nb : V → V → Bool) (P : List V) :
 
 example : bkTop (fun a b : Nat => (a, b) ∈ [(0, 1), (1, 0), (1, 2), (2, 1)]) [2, 0, 1] =
     some ([[2, 1], [0, 1]], [2, 0, 1]) := by decide
+
+/-! ### BronKerbosch: `R` on its shared backing array -/
+
+/-- `append(R, v)` writes into R's array in place whenever it has spare capacity (the array
+allocated by `GetMaximalCliques` always has), so sibling branches of the loop overwrite the
+same cell and deeper frames write behind it.  Harmless: for EVERY initial heap `h`, every slice
+`r` that reads `R` in it (any capacity, any junk in the spare cells), every reallocation policy
+`grow` and every fuel, the heap-level recursion `bkH` emits exactly the cliques of the
+value-level recursion `bk` (each clique is the value of `R` at the moment it is copied out),
+changes nothing of the pre-existing heap except cells at index `≥ len(R)` of R's own array
+(`Frame`), and the caller's `R` still reads the same afterwards. -/
+theorem c18_R_alias_safe {V : Type} (nb : V → V → Bool) (grow : Nat → Nat) (fuel : Nat)
+    (h : RHeap V) (r : RSlice) (R P X : List V) (hr : readR h r = some R) :
+    match bk nb fuel R P X with
+    | none => bkH nb grow fuel h r P X = none
+    | some out => ∃ h', bkH nb grow fuel h r P X = some (h', out) ∧ Frame h h' r ∧
+        readR h' r = some R := by
+  have := bkH_refines nb grow fuel h r R P X hr
+  cases hb : bk nb fuel R P X with
+  | none => rw [hb] at this; exact this
+  | some out =>
+    rw [hb] at this
+    obtain ⟨h', h1, f, _⟩ := this
+    exact ⟨h', h1, f, readR_frame f hr⟩
+
+/-- `GetMaximalCliques`: `R := make([]T, 0, cap)` (any capacity, any content `junk` of the spare
+cells) gives the cliques of `maximalCliques` (the value-level top call, `c18_cliques_exact`). -/
+theorem c18_R_alias_safe_top {V : Type} (nb : V → V → Bool) (grow : Nat → Nat) (junk P : List V) :
+    (bkH nb grow (P.length + 2) [junk] ⟨0, 0⟩ P []).map (·.2) = maximalCliques nb P := by
+  have hr : readR [junk] (⟨0, 0⟩ : RSlice) = some ([] : List V) := by simp [readR]
+  have := bkH_refines nb grow (P.length + 2) [junk] ⟨0, 0⟩ [] P [] hr
+  simp only [maximalCliques, bkTop_eq]
+  cases hb : bk nb (P.length + 2) [] P [] with
+  | none => rw [hb] at this; simp [this]
+  | some out =>
+    rw [hb] at this
+    obtain ⟨h', h1, _, _⟩ := this
+    simp [h1]
+
+-- triangle 0-1-2 + pendant 3: capacity 4 (always in place), capacity 1 (reallocates), capacity 0
+example : let nb : Nat → Nat → Bool := fun a b => decide ((a, b) ∈ [(0, 1), (1, 0), (1, 2), (2, 1), (0, 2), (2, 0), (2, 3), (3, 2)])
+    (bkH nb (fun n => n) 6 [[9, 9, 9, 9]] ⟨0, 0⟩ [0, 1, 2, 3] []).map (·.2) = some [[0, 1, 2], [2, 3]] ∧
+    (bkH nb (fun _ => 0) 6 [[9]] ⟨0, 0⟩ [0, 1, 2, 3] []).map (·.2) = some [[0, 1, 2], [2, 3]] ∧
+    (bkH nb (fun n => n + 1) 6 [[]] ⟨0, 0⟩ [3, 2, 0, 1] []).map (·.2) = some [[3, 2], [2, 0, 1]] := by
+  decide
 
 /-! ### Maximal cliques
 
